@@ -10,6 +10,7 @@ import (
 type nativeObj struct{ v any }
 
 func init() {
+	intrinsics["(runtime.errorString).Error"] = func(fr *frame, a []value) value { return a[0] }
 	intrinsics["regexp.MustCompile"] = func(fr *frame, a []value) value {
 		var cell value = nativeObj{regexp.MustCompile(fr.i.concStr(a[0]))}
 		return &cell
